@@ -24,7 +24,7 @@ RULE = ('Hypothesis draws 1-2 module classes (parameters over all datatypes with
 ASSUMPTIONS = ['reference node model in this file; payload verdicts by vf/refmodel.py',
                'check_ hooks are driver code: only write_* and command functions count as "reaching the driver"']
 
-N_EXAMPLES = {'quick': 120, 'thorough': 2500}
+N_EXAMPLES = {'quick': 400, 'thorough': 8000}
 BADVALUE = {'WrongType', 'RangeError'}
 
 
